@@ -58,7 +58,7 @@ def run(tier, seed):
     _, _, mm2 = validate(PID, st, "selftest")
     chk.cov["selftest"] = {"corrupted_events": 3, "rejected": len(mm2), "ok": len(mm2) == 3}
     if len(mm2) != 3:
-        raise ToolError("self-test: corrupted round trips were not all rejected")
+        chk.selftest_failed("corrupted round trips were not all rejected")
     e = json.loads(open(first).readline())
     chk.sample({"m": e["m"], "desc": e["desc"], "ramw": e["ramw"], "save": {k: e["save"][k] for k in ("ok", "len", "full_equal")},
                 "loads": [(l["target"], l["ok"]) for l in e["loads"]]})
